@@ -153,10 +153,10 @@ type backend struct {
 
 func (b *backend) URL() *url.URL { return b.targetURL }
 
-// encodedSlashProtector replaces both spellings of an encoded slash by a placeholder.
+// encodedSlashNormalizer turns the lower-case spelling of an encoded slash into the canonical one.
 //
 //nolint:gochecknoglobals
-var encodedSlashProtector = strings.NewReplacer("%2F", "$$$escaped-slash$$$", "%2f", "$$$escaped-slash$$$")
+var encodedSlashNormalizer = strings.NewReplacer("%2f", "%2F")
 
 // containsEncodedSlash reports whether path contains a percent-encoded slash.
 // Hex digits of percent-encoded octets are case-insensitive (RFC 3986, section 2.1).
@@ -171,7 +171,23 @@ func unescape(value string, handling config.EncodedSlashesHandling) string {
 		return unescaped
 	}
 
-	unescaped, _ := url.PathUnescape(encodedSlashProtector.Replace(value))
+	return unescapeExceptSlashes(value)
+}
 
-	return strings.ReplaceAll(unescaped, "$$$escaped-slash$$$", "%2F")
+// unescapeExceptSlashes decodes every percent-encoded octet of value except encoded slashes, which
+// stay in place as %2F. The value is cut at the encoded slashes and the pieces are decoded one by one,
+// so there is no placeholder text, which could be confused with something the client has sent.
+func unescapeExceptSlashes(value string) string {
+	parts := strings.Split(encodedSlashNormalizer.Replace(value), "%2F")
+
+	for idx, part := range parts {
+		unescaped, err := url.PathUnescape(part)
+		if err != nil {
+			return ""
+		}
+
+		parts[idx] = unescaped
+	}
+
+	return strings.Join(parts, "%2F")
 }
